@@ -159,6 +159,19 @@ func levelB(tier string) (map[string]*violGroup, *levelBInfo) {
 		ms := genModuleSet(gr, genModOpts{Aliases: true})
 		progs = append(progs, &HProg{Name: fmt.Sprintf("genmod#%d", n), Root: ms.Root, Files: ms.Tree.Files})
 	}
+	// generated single-module programs (W-gen-own): calls with several arguments, references next to values, nested calls —
+	// the shapes whose code generation looks at maps of arguments; compiled at -O 2 mostly, where the compiler does most
+	nOwn := 60
+	if thorough {
+		nOwn = 600
+	}
+	if v := os.Getenv("VERIF_GEN"); v != "" {
+		fmt.Sscan(v, &nOwn)
+	}
+	ownFrom := len(progs)
+	for n := 0; n < nOwn; n++ {
+		progs = append(progs, genOwnProgram(prng.Stream(seed, "ordersim", "levelB-genown", n), n, false))
+	}
 	nOrders := 5
 	if thorough {
 		nOrders = 20
@@ -169,9 +182,12 @@ func levelB(tier string) (map[string]*violGroup, *levelBInfo) {
 		cfg    BuildCfg
 	}
 	var tasks []task
-	for _, p := range progs {
+	for pi, p := range progs {
 		pr := prng.Stream(seed, "ordersim", "levelB-orders", p.Name)
 		t := task{p: p, cfg: BuildCfg{O: pr.Intn(3), LinkMods: true, LinkList: pr.Bool()}}
+		if pi >= ownFrom && pr.Chance(0.7) {
+			t.cfg.O = 2
+		}
 		t.orders = append(t.orders, "reverse:0")
 		for i := 1; i < nOrders; i++ {
 			t.orders = append(t.orders, fmt.Sprintf("%s:%d", prng.Pick(pr, []string{"rotate", "rotate", "random", "transpose", "mixed"}), pr.Uint64()>>1))
